@@ -2,7 +2,7 @@ SPECIFICATION Spec
 CONSTANTS
   Isotopes <- MCIsotopes
   Levels <- MCLevels
-  Modes <- MCModes
+  Modes <- MCModesGa
   MaxOps = 1
   MaxCount = 2
   GaData = TRUE
